@@ -20,6 +20,7 @@ struct BuiltDim { ConcreteAxis ax; };
 nix::RangeMatch rm(const std::string &m) { return m == "Inclusive" ? nix::RangeMatch::Inclusive : nix::RangeMatch::Exclusive; }
 
 // array with the given dimensions; element value = linear (row-major) index
+std::string g_dimUnit;     // when non-empty: sampled / range dimensions carry this unit and requests are made in a prefixed unit
 nix::DataArray buildArray(nix::Block &b, const std::string &name, const std::vector<ConcreteAxis> &axes, const std::vector<long> &d) {
     nix::NDSize shape(d.size());
     size_t total = 1;
@@ -30,8 +31,8 @@ nix::DataArray buildArray(nix::Block &b, const std::string &name, const std::vec
     a.setData(nix::DataType::Double, v.data(), shape, nix::NDSize(shape.size(), 0));
     for (size_t j = 0; j < axes.size(); j++) {
         const ConcreteAxis &ax = axes[j];
-        if (ax.kind == "sampled") { nix::SampledDimension sd = a.appendSampledDimension(ax.interval); sd.offset(ax.offset); }
-        else if (ax.kind == "range") a.appendRangeDimension(ax.ticks);
+        if (ax.kind == "sampled") { nix::SampledDimension sd = a.appendSampledDimension(ax.interval); sd.offset(ax.offset); if (!g_dimUnit.empty()) sd.unit(g_dimUnit); }
+        else if (ax.kind == "range") { nix::RangeDimension rd = a.appendRangeDimension(ax.ticks); if (!g_dimUnit.empty()) rd.unit(g_dimUnit); }
         else if (ax.kind == "setL" || ax.kind == "set0") {
             std::vector<std::string> l;
             if (ax.kind == "setL") for (long i = 0; i < ax.count(); i++) l.push_back("l" + std::to_string(i));
@@ -125,6 +126,22 @@ boost::optional<nix::ndsize_t> libGE(const nix::Dimension &dim, double s) {
     }
 }
 
+// C18: the same request expressed in a prefixed unit: values multiplied by S, the library multiplies by f = 1/S.
+// Only requests whose rescaling is exact in binary floating point are used.
+double g_S = 1.0, g_f = 1.0;
+bool rescale(const ConcreteAxis &ax, Concrete &x, long s, long e, bool pointLike) {
+    if (g_dimUnit.empty() || !(ax.kind == "sampled" || ax.kind == "range")) return true;
+    double s2 = x.s * g_S, e2 = x.ext * g_S;
+    if (s2 * g_f != x.s) return false;
+    double end = (s2 + e2) * g_f;
+    if (pointLike) { if (end != x.s) return false; }
+    else if (classify(ax, end) != e || (e == s && !(end > x.s))) return false;
+    if (classify(ax, s2 * g_f) != s) return false;
+    x.s = s2; x.ext = e2;
+    return true;
+}
+std::string unitFor(const ConcreteAxis &ax, const std::string &scaled) { return (!g_dimUnit.empty() && (ax.kind == "sampled" || ax.kind == "range")) ? scaled : "none"; }
+
 struct Verdict { long evals = 0, bad = 0, known = 0; json first; };
 
 void note(Verdict &v, const std::string &call, const std::string &desc, const json &exp, const json &obs) {
@@ -172,6 +189,8 @@ bool explainedByMaxExtent(const nix::DataArray &a, const std::vector<ConcreteAxi
 json handle(Ctx &c, const json &rec) {
     RF.fresh(c);
     RF.used++;
+    g_dimUnit = c.opts.value("dim_unit", "");
+    g_S = c.opts.value("scale", 1.0); g_f = c.opts.value("factor", 1.0);
     const json &cs = rec["c"];
     const json &res = rec["res"];
     std::string t = cs["t"], mode = cs["m"], ext = cs["ext"], lt = cs["lt"];
@@ -202,7 +221,12 @@ json handle(Ctx &c, const json &rec) {
             std::vector<std::vector<Concrete>> per(L);
             bool feasible = true;
             for (size_t j = 0; j < L; j++) {
-                if (j < R) per[j] = concretise(axes[j], cs["P"][j], cs["E"][j], cs["Z"][j], absent, rank1 && L == 1);
+                if (j < R) {
+                    per[j] = concretise(axes[j], cs["P"][j], cs["E"][j], cs["Z"][j], absent, rank1 && L == 1);
+                    std::vector<Concrete> keep;
+                    for (auto &x : per[j]) if (rescale(axes[j], x, cs["P"][j], cs["E"][j], absent || cs["Z"][j].get<bool>())) keep.push_back(x);
+                    per[j] = keep;
+                }
                 else { Concrete x; x.s = 1.0; x.ext = 0.0; per[j] = {x}; }      // entries beyond the rank are ignored
                 if (per[j].empty()) feasible = false;
             }
@@ -235,11 +259,14 @@ json handle(Ctx &c, const json &rec) {
                 if (t == "slice") {
                     std::vector<double> st(pos), en(L);
                     for (size_t j = 0; j < L; j++) en[j] = pos[j] + exts[j];
-                    check("dataSlice", [&] { return nix::util::dataSlice(a, st, en, std::vector<std::string>{}, rm(mode)); }, false, rm(mode));
+                    std::vector<std::string> us;
+                    if (!g_dimUnit.empty()) for (size_t j = 0; j < L && j < R; j++) us.push_back(unitFor(axes[j], c.opts.value("tag_unit", "ms")));
+                    check("dataSlice", [&] { return nix::util::dataSlice(a, st, en, us, rm(mode)); }, false, rm(mode));
                     continue;
                 }
                 nix::Tag tag = b.createTag("tag", "t", pos);
                 if (!absent) tag.extent(exts);
+                if (!g_dimUnit.empty() && L > 0) { std::vector<std::string> us; for (size_t j = 0; j < L; j++) us.push_back(j < R ? unitFor(axes[j], c.opts.value("tag_unit", "ms")) : "none"); tag.units(us); }
                 nix::RangeMatch effective = (absent || L == 0) ? nix::RangeMatch::Inclusive : rm(mode);   // no extent vector: the library matches inclusively
                 if (t == "tag") {
                     tag.addReference(a);
@@ -273,7 +300,12 @@ json handle(Ctx &c, const json &rec) {
             for (size_t i = 0; i < N && feasible; i++) for (size_t j = 0; j < L; j++) {
                 const json &row = cs["rows"][i];
                 std::vector<Concrete> cv;
-                if (j < R) cv = concretise(axes[j], row["P"][j], row["E"][j], row["Z"][j], absent, false);
+                if (j < R) {
+                    cv = concretise(axes[j], row["P"][j], row["E"][j], row["Z"][j], absent, false);
+                    std::vector<Concrete> keep;
+                    for (auto &x : cv) if (rescale(axes[j], x, row["P"][j], row["E"][j], absent || row["Z"][j].get<bool>())) keep.push_back(x);
+                    cv = keep;
+                }
                 else { Concrete x; x.s = 1.0; cv = {x}; }
                 if (cv.empty()) { feasible = false; break; }
                 P[i * L + j] = cv[0].s; E[i * L + j] = cv[0].ext;
@@ -283,6 +315,7 @@ json handle(Ctx &c, const json &rec) {
             nix::DataArray pa = b.createDataArray("positions", "t", nix::DataType::Double, psh);
             pa.setData(nix::DataType::Double, P.data(), psh, nix::NDSize(psh.size(), 0));
             nix::MultiTag mt = b.createMultiTag("mtag", "t", pa);
+            if (!g_dimUnit.empty()) { std::vector<std::string> us; for (size_t j = 0; j < L && j < R; j++) us.push_back(unitFor(axes[j], c.opts.value("tag_unit", "ms"))); mt.units(us); }
             if (!absent) {
                 nix::DataArray ea = b.createDataArray("extents", "t", nix::DataType::Double, psh);
                 ea.setData(nix::DataType::Double, E.data(), psh, nix::NDSize(psh.size(), 0));
